@@ -19,7 +19,10 @@
 //!   scen <tokens>          one scenario;   output  `<r1>,<r2>,... | <steps of op1> ; <steps of op2> ...`
 //!   scenq <tokens>         the same without the step logs
 //!   enum <i> <tokens>      every step k and every canonical variant of token i (0-based);
-//!                          output one field `X<k>.<variant>=<r1>,<r2>,...` per combination
+//!                          output one field `X<k>.<variant>=<r1>,<r2>,...` per combination;
+//!                          the death at step k is simulated in-process (hook mode Freeze: step k and
+//!                          every later step are refused, then the engine is dropped)
+//!   enumf <i> <tokens>     the same with a real abort() in a forked process
 //! Each part of a scenario between two crashes runs in its own child process (`nvh child crash …`);
 //! the parent reconstructs the power-loss image from the hook's undo journal.
 use super::{State, StreamDef};
@@ -320,6 +323,16 @@ fn idx_probe(args: &[String]) -> i32 {
 
 /// `nvh child crash <dir> <txs-so-far as n.e.p,...|-> <tokens...>`: prints `result|steps` per op
 fn child(args: &[String]) -> i32 {
+    if !args.is_empty() && args[0] == "worker" {
+        return worker();
+    }
+    child_run(args, 'F')
+}
+
+/// `mode`: 'F' hooks on with undo journal (segments that die by abort(), forked), 'Z' the same with
+/// the death simulated in this process (hook mode Freeze), 'I' hooks on without journal
+/// (step logs, injected errors), 'Q' hooks off (continuations whose step logs nobody reads)
+fn child_run(args: &[String], mode: char) -> i32 {
     if args.len() < 2 {
         return 2;
     }
@@ -340,14 +353,29 @@ fn child(args: &[String]) -> i32 {
         Some(t) => t,
         None => return 2,
     };
-    verif_io::enable(true, Some(&dir));
+    match mode {
+        'F' => {
+            verif_io::clear_all();
+            verif_io::enable(true, Some(&dir))
+        }
+        'Z' => {
+            verif_io::clear_all();
+            verif_io::enable(true, Some(&dir))
+        }
+        'I' => {
+            verif_io::clear_all();
+            verif_io::enable(false, None)
+        }
+        _ => verif_io::disable(),
+    }
+    let _ = verif_io::take_log();
     let mut w = World { dir, engine: None, txs };
     let stdout = std::io::stdout();
     let mut armed: Option<&'static str> = None;
     for tok in &toks {
         match tok {
             Tok::Crash(k, _) => {
-                verif_io::arm(verif_io::Mode::Abort, *k);
+                verif_io::arm(if mode == 'Z' { verif_io::Mode::Freeze } else { verif_io::Mode::Abort }, *k);
                 armed = Some("crash");
                 continue;
             }
@@ -368,10 +396,18 @@ fn child(args: &[String]) -> i32 {
             }
         };
         if armed.is_some() {
-            if !verif_io::fired() {
+            let fired = verif_io::fired();
+            if !fired {
                 r.push('~');
             }
             verif_io::disarm();
+            if mode == 'Z' && armed == Some("crash") && fired {
+                // simulated process death at that step: nothing was performed from it on (the hook
+                // refused every later step); the engine is dropped without any further I/O
+                verif_io::disable();
+                drop(w);
+                return 1;
+            }
             armed = None;
         }
         let steps = if matches!(tok, Tok::Dump) { let _ = verif_io::take_log(); "-".to_string() } else { steps_string() };
@@ -402,6 +438,13 @@ enum J {
     R { to: String, backup: String },
 }
 
+fn rebase(dir: &Path, file: &str) -> String {
+    match Path::new(file).file_name() {
+        Some(n) => dir.join(n).to_string_lossy().to_string(),
+        None => file.to_string(),
+    }
+}
+
 fn read_journal(dir: &Path) -> Vec<J> {
     let mut out = Vec::new();
     let Ok(text) = std::fs::read_to_string(dir.join("unsynced.log")) else { return out };
@@ -409,18 +452,18 @@ fn read_journal(dir: &Path) -> Vec<J> {
         let ws: Vec<&str> = line.split(' ').collect();
         match ws.as_slice() {
             ["W", f, off, len, old, pre] => out.push(J::W {
-                file: f.to_string(),
+                file: rebase(dir, f),
                 offset: off.parse().unwrap_or(0),
                 len: len.parse().unwrap_or(0),
                 old_len: old.parse().unwrap_or(0),
                 pre: crate::util::unhex(pre).unwrap_or_default(),
             }),
             ["L", f, old, new] => out.push(J::L {
-                file: f.to_string(),
+                file: rebase(dir, f),
                 old_len: old.parse().unwrap_or(0),
                 new_len: new.parse().unwrap_or(0),
             }),
-            ["R", to, b] => out.push(J::R { to: to.to_string(), backup: b.to_string() }),
+            ["R", to, b] => out.push(J::R { to: rebase(dir, to), backup: rebase(dir, b) }),
             _ => {}
         }
     }
@@ -556,44 +599,214 @@ fn cleanup_side_files(dir: &Path) {
     let _ = std::fs::remove_file(dir.join("db.verif-prerename"));
 }
 
+// ------------------------------------------------------------------------------------------------
+// worker processes: one long-lived, single-threaded `nvh child crash worker` per harness thread.
+// A worker forks (no exec) for every scenario segment: the forked process runs the segment exactly
+// as `child` does and may die by abort(); the worker relays its output.  This replaces one
+// spawn+exec of the harness binary per segment.
+
+fn worker() -> i32 {
+    use std::io::{BufRead, Read};
+    use std::os::fd::FromRawFd;
+    let stdin = std::io::stdin();
+    let mut line = String::new();
+    loop {
+        line.clear();
+        if stdin.lock().read_line(&mut line).unwrap_or(0) == 0 {
+            if std::env::var("NVH_PROF").is_ok() {
+                let mut ru: libc::rusage = unsafe { std::mem::zeroed() };
+                unsafe { libc::getrusage(libc::RUSAGE_CHILDREN, &mut ru) };
+                let mut rs: libc::rusage = unsafe { std::mem::zeroed() };
+                unsafe { libc::getrusage(libc::RUSAGE_SELF, &mut rs) };
+                eprintln!(
+                    "worker children: user {}.{:06} sys {}.{:06} minflt {} ; self user {}.{:06} sys {}.{:06}",
+                    ru.ru_utime.tv_sec, ru.ru_utime.tv_usec, ru.ru_stime.tv_sec, ru.ru_stime.tv_usec, ru.ru_minflt,
+                    rs.ru_utime.tv_sec, rs.ru_utime.tv_usec, rs.ru_stime.tv_sec, rs.ru_stime.tv_usec
+                );
+            }
+            return 0;
+        }
+        let mut args: Vec<String> = line.trim_end_matches('\n').split('\t').map(|s| s.to_string()).collect();
+        let mode = args.remove(0).chars().next().unwrap_or('F');
+        if mode != 'F' {
+            // no process death possible: run in this process (a panic is caught per op; should the
+            // engine take the whole process down, the harness sees the worker die and reports it)
+            let code = child_run(&args, mode);
+            verif_io::disarm();
+            verif_io::disable();
+            let so = std::io::stdout();
+            let mut o = so.lock();
+            let _ = writeln!(o, "#END {}", if code == 0 { 0 } else { 1 });
+            let _ = o.flush();
+            continue;
+        }
+        let mut fds = [0i32; 2];
+        if unsafe { libc::pipe(fds.as_mut_ptr()) } != 0 {
+            return 3;
+        }
+        let pid = unsafe { libc::fork() };
+        if pid < 0 {
+            return 3;
+        }
+        if pid == 0 {
+            unsafe {
+                libc::close(fds[0]);
+                libc::dup2(fds[1], 1);
+                libc::close(fds[1]);
+            }
+            let code = child_run(&args, 'F');
+            let _ = std::io::stdout().flush();
+            unsafe { libc::_exit(code) };
+        }
+        unsafe { libc::close(fds[1]) };
+        let mut f = unsafe { std::fs::File::from_raw_fd(fds[0]) };
+        let mut out = Vec::new();
+        let _ = f.read_to_end(&mut out);
+        drop(f);
+        let mut status: i32 = 0;
+        unsafe { libc::waitpid(pid, &mut status, 0) };
+        let ok = libc::WIFEXITED(status) && libc::WEXITSTATUS(status) == 0;
+        let so = std::io::stdout();
+        let mut o = so.lock();
+        let _ = o.write_all(&out);
+        if !out.is_empty() && !out.ends_with(b"\n") {
+            let _ = o.write_all(b"\n");
+        }
+        let _ = writeln!(o, "#END {}", if ok { 0 } else { 1 });
+        let _ = o.flush();
+    }
+}
+
+struct WorkerProc {
+    child: std::process::Child,
+    stdin: std::process::ChildStdin,
+    stdout: std::io::BufReader<std::process::ChildStdout>,
+}
+
+impl Drop for WorkerProc {
+    fn drop(&mut self) {
+        let _ = self.child.kill();
+        let _ = self.child.wait();
+    }
+}
+
+fn spawn_worker() -> WorkerProc {
+    let exe = std::env::current_exe().unwrap();
+    let mut child = Command::new(exe)
+        .args(["child", "crash", "worker"])
+        .stdin(Stdio::piped())
+        .stdout(Stdio::piped())
+        .stderr(if std::env::var("NVH_PROF").is_ok() { Stdio::inherit() } else { Stdio::null() })
+        .spawn()
+        .expect("spawn worker");
+    let stdin = child.stdin.take().unwrap();
+    let stdout = std::io::BufReader::new(child.stdout.take().unwrap());
+    WorkerProc { child, stdin, stdout }
+}
+
+const MAX_WORKERS: usize = 64;
+static POOL: std::sync::OnceLock<Vec<std::sync::Mutex<Option<WorkerProc>>>> = std::sync::OnceLock::new();
+thread_local! {
+    static SLOT: std::cell::Cell<usize> = const { std::cell::Cell::new(0) };
+    /// continuations of enumerated crashes: only the results are reported
+    static QUIET: std::cell::Cell<bool> = const { std::cell::Cell::new(false) };
+    /// crashes of `enum` lines: simulated in the worker process (hook mode Freeze) instead of abort() in a fork
+    static FREEZE: std::cell::Cell<bool> = const { std::cell::Cell::new(false) };
+}
+
+fn pool() -> &'static Vec<std::sync::Mutex<Option<WorkerProc>>> {
+    POOL.get_or_init(|| (0..MAX_WORKERS).map(|_| std::sync::Mutex::new(None)).collect())
+}
+
 pub struct OpOut {
     pub result: String,
     pub steps: String,
 }
 
-/// run one child over `toks` (which contain at most one crash marker, as the last-but-one token);
-/// returns per-op outputs and whether the child was killed
+/// run one segment (`toks` contain at most one crash marker, as the last-but-one token) in a
+/// forked process of this thread's worker; returns per-op outputs and whether it was killed
 fn run_child(_stream: &str, dir: &Path, txs: &[(u32, u32, u32)], toks: &[String]) -> (Vec<OpOut>, bool) {
-    let exe = std::env::current_exe().unwrap();
+    use std::io::BufRead;
+    let has_crash = toks.iter().any(|t| matches!(parse_tok(t), Some(Tok::Crash(..))));
+    let mode = if has_crash {
+        if FREEZE.with(|q| q.get()) { 'Z' } else { 'F' }
+    } else if QUIET.with(|q| q.get()) {
+        'Q'
+    } else {
+        'I'
+    };
     let txarg = if txs.is_empty() {
         "-".to_string()
     } else {
         txs.iter().map(|t| format!("{}.{}.{}", t.0, t.1, t.2)).collect::<Vec<_>>().join(",")
     };
-    let out = Command::new(exe)
-        .arg("child")
-        .arg("crash")
-        .arg(dir)
-        .arg(txarg)
-        .args(toks)
-        .stdin(Stdio::null())
-        .stderr(Stdio::null())
-        .output()
-        .expect("spawn child");
-    let text = String::from_utf8_lossy(&out.stdout);
-    let mut res = Vec::new();
-    for line in text.lines() {
-        let (r, s) = line.split_once('|').unwrap_or((line, "-"));
-        res.push(OpOut { result: r.to_string(), steps: s.to_string() });
+    let mut job = format!("{}\t{}\t{}", mode, dir.display(), txarg);
+    for t in toks {
+        job.push('\t');
+        job.push_str(t);
     }
-    (res, !out.status.success())
+    job.push('\n');
+    let slot = SLOT.with(|s| s.get()) % MAX_WORKERS;
+    let mut guard = pool()[slot].lock().unwrap_or_else(|e| e.into_inner());
+    let mut res = Vec::new();
+    for _attempt in 0..2 {
+        if guard.is_none() {
+            *guard = Some(spawn_worker());
+        }
+        let w = guard.as_mut().unwrap();
+        if w.stdin.write_all(job.as_bytes()).is_err() || w.stdin.flush().is_err() {
+            *guard = None;
+            continue;
+        }
+        res.clear();
+        let mut line = String::new();
+        loop {
+            line.clear();
+            match w.stdout.read_line(&mut line) {
+                Ok(0) | Err(_) => {
+                    // the worker itself died: treat as a killed segment
+                    *guard = None;
+                    return (res, true);
+                }
+                Ok(_) => {}
+            }
+            let l = line.trim_end_matches('\n');
+            if let Some(code) = l.strip_prefix("#END ") {
+                return (res, code != "0");
+            }
+            let (r, s) = l.split_once('|').unwrap_or((l, "-"));
+            res.push(OpOut { result: r.to_string(), steps: s.to_string() });
+        }
+    }
+    (res, true)
 }
 
-/// execute a whole scenario; returns (results per op token (markers excluded), steps per op)
-pub fn run_scenario(stream: &str, toks: &[String]) -> Vec<OpOut> {
-    let dir = fresh_dir();
-    let mut outs: Vec<OpOut> = Vec::new();
-    let mut txs: Vec<(u32, u32, u32)> = Vec::new();
+/// run one segment in `dir`, append its per-op outputs (a segment that died yields `dead` for the
+/// op under the marker and `skipped` for the rest); returns whether the process was killed
+fn run_segment(stream: &str, dir: &Path, txs: &mut Vec<(u32, u32, u32)>, seg: &[String], outs: &mut Vec<OpOut>) -> bool {
+    let n_ops = seg.iter().filter(|t| !matches!(parse_tok(t), Some(Tok::Crash(..)) | Some(Tok::Fault(..)))).count();
+    let (res, killed) = run_child(stream, dir, txs, seg);
+    for t in seg {
+        if let Some(Tok::Tx(n, e, p)) = parse_tok(t) {
+            txs.push((n, e, p));
+        }
+    }
+    let got = res.len();
+    outs.extend(res);
+    if killed && got < n_ops {
+        // the op under the marker died
+        let steps = std::fs::read_to_string(dir.join("steps.log")).unwrap_or_default();
+        let n = steps.lines().count().saturating_sub(1);
+        outs.push(OpOut { result: "dead".into(), steps: format!("died-at-{}", n) });
+        for _ in got + 1..n_ops {
+            outs.push(OpOut { result: "skipped".into(), steps: "-".into() });
+        }
+    }
+    killed
+}
+
+/// execute the tokens in `dir` (segments between crashes each in their own process)
+fn run_from(stream: &str, dir: &Path, txs: &mut Vec<(u32, u32, u32)>, toks: &[String], outs: &mut Vec<OpOut>) {
     let mut i = 0;
     while i < toks.len() {
         // segment = tokens up to and including the op after the next crash marker
@@ -607,39 +820,66 @@ pub fn run_scenario(stream: &str, toks: &[String]) -> Vec<OpOut> {
             }
             j += 1;
         }
-        let seg = &toks[i..j];
-        let n_ops = seg.iter().filter(|t| !matches!(parse_tok(t), Some(Tok::Crash(..)) | Some(Tok::Fault(..)))).count();
-        let (res, killed) = run_child(stream, &dir, &txs, seg);
-        for t in seg {
-            if let Some(Tok::Tx(n, e, p)) = parse_tok(t) {
-                txs.push((n, e, p));
-            }
-        }
-        let got = res.len();
-        outs.extend(res);
+        let killed = run_segment(stream, dir, txs, &toks[i..j], outs);
         if killed {
-            if got < n_ops {
-                // the op under the marker died
-                let steps = std::fs::read_to_string(dir.join("steps.log")).unwrap_or_default();
-                let n = steps.lines().count().saturating_sub(1);
-                outs.push(OpOut { result: "dead".into(), steps: format!("died-at-{}", n) });
-                for _ in got + 1..n_ops {
-                    outs.push(OpOut { result: "skipped".into(), steps: "-".into() });
-                }
-            }
             if let Some(var) = &crash {
                 if let Some(v) = parse_variant(var) {
                     if v.power {
-                        apply_power_loss(&dir, &v);
+                        apply_power_loss(dir, &v);
                     }
                 }
             }
         }
-        cleanup_side_files(&dir);
+        cleanup_side_files(dir);
         i = j;
     }
+}
+
+/// execute a whole scenario; returns (results per op token (markers excluded), steps per op)
+pub fn run_scenario(stream: &str, toks: &[String]) -> Vec<OpOut> {
+    let dir = fresh_dir();
+    let mut outs: Vec<OpOut> = Vec::new();
+    let mut txs: Vec<(u32, u32, u32)> = Vec::new();
+    run_from(stream, &dir, &mut txs, toks, &mut outs);
     let _ = std::fs::remove_dir_all(&dir);
     outs
+}
+
+/// fingerprint of the database files in `dir` (names, lengths, contents)
+fn image_key(dir: &Path) -> Vec<u8> {
+    let mut names: Vec<PathBuf> = std::fs::read_dir(dir)
+        .map(|rd| rd.flatten().filter(|e| e.file_type().map(|t| t.is_file()).unwrap_or(false)).map(|e| e.path()).collect())
+        .unwrap_or_default();
+    names.sort();
+    let mut key = Vec::new();
+    for n in names {
+        let data = std::fs::read(&n).unwrap_or_default();
+        let name = n.file_name().map(|s| s.to_string_lossy().to_string()).unwrap_or_default();
+        key.extend_from_slice(name.as_bytes());
+        key.push(0);
+        key.extend_from_slice(&(data.len() as u64).to_le_bytes());
+        let mut h1 = crc32fast::Hasher::new();
+        h1.update(&data);
+        key.extend_from_slice(&h1.finalize().to_le_bytes());
+        // second, independent digest (FNV-1a 64) so that a CRC collision alone cannot merge two images
+        let mut h2: u64 = 0xcbf29ce484222325;
+        for b in &data {
+            h2 ^= *b as u64;
+            h2 = h2.wrapping_mul(0x100000001b3);
+        }
+        key.extend_from_slice(&h2.to_le_bytes());
+    }
+    key
+}
+
+fn copy_dir(from: &Path, to: &Path) {
+    if let Ok(rd) = std::fs::read_dir(from) {
+        for e in rd.flatten() {
+            if e.file_type().map(|t| t.is_file()).unwrap_or(false) {
+                let _ = std::fs::copy(e.path(), to.join(e.file_name()));
+            }
+        }
+    }
 }
 
 // ------------------------------------------------------------------------------------------------
@@ -723,12 +963,33 @@ pub fn variants(np: u64, nw: u64, nr: u64) -> Vec<String> {
 
 fn jobs() -> usize {
     std::env::var("NVH_JOBS").ok().and_then(|v| v.parse().ok()).unwrap_or_else(|| {
-        std::thread::available_parallelism().map(|n| n.get()).unwrap_or(4).min(12)
+        std::thread::available_parallelism().map(|n| n.get()).unwrap_or(4).min(MAX_WORKERS)
     })
 }
 
 fn join_results(outs: &[OpOut]) -> String {
     outs.iter().map(|o| o.result.as_str()).collect::<Vec<_>>().join(",")
+}
+
+/// run `n` work items on up to `jobs()` threads, each bound to its own worker process
+fn par_for(n: usize, f: &(dyn Fn(usize) + Sync)) {
+    let next = AtomicU64::new(0);
+    let nthreads = jobs().min(n.max(1));
+    std::thread::scope(|sc| {
+        for th in 0..nthreads {
+            let next = &next;
+            sc.spawn(move || {
+                SLOT.with(|s| s.set(th));
+                loop {
+                    let i = next.fetch_add(1, Ordering::Relaxed) as usize;
+                    if i >= n {
+                        break;
+                    }
+                    f(i);
+                }
+            });
+        }
+    });
 }
 
 pub fn run_enum(stream: &str, idx: usize, toks: &[String], marker: char) -> String {
@@ -746,36 +1007,100 @@ pub fn run_enum(stream: &str, idx: usize, toks: &[String], marker: char) -> Stri
     let pre: Vec<String> = probe[..idx].iter().flat_map(|o| split(&o.steps)).collect();
     let op: Vec<String> = split(&probe[idx].steps);
     let pend = pending_before(&pre, &op);
-    let mut work: Vec<String> = Vec::new();
+    if marker == 'F' {
+        // injected errors: the process keeps running, one scenario per step
+        let work: Vec<String> = (0..pend.len()).map(|k| format!("F{}", k)).collect();
+        let results: Vec<std::sync::Mutex<String>> = work.iter().map(|_| std::sync::Mutex::new(String::new())).collect();
+        par_for(work.len(), &|i| {
+            let mut t: Vec<String> = toks[..idx].to_vec();
+            t.push(work[i].clone());
+            t.extend_from_slice(&toks[idx..]);
+            let outs = run_scenario(stream, &t);
+            *results[i].lock().unwrap() = join_results(&outs[idx.min(outs.len())..]);
+        });
+        let fields: Vec<String> =
+            work.iter().zip(results.iter()).map(|(w, r)| format!("{}={}", w, r.lock().unwrap())).collect();
+        return if fields.is_empty() { "none".into() } else { fields.join(" ") };
+    }
+    // crashes.  Phase 1: per step k ONE run of prefix + op that dies at k (process death); its
+    // directory (files + undo journal) is kept.
+    struct Crashed {
+        dir: PathBuf,
+        head: String,
+        txs: Vec<(u32, u32, u32)>,
+        killed: bool,
+    }
+    let t0 = std::time::Instant::now();
+    let nk = pend.len();
+    let crashed: Vec<std::sync::Mutex<Option<Crashed>>> = (0..nk).map(|_| std::sync::Mutex::new(None)).collect();
+    par_for(nk, &|k| {
+        let dir = fresh_dir();
+        let mut seg: Vec<String> = toks[..idx].to_vec();
+        seg.push(format!("X{}.p", k));
+        seg.push(toks[idx].clone());
+        let mut outs = Vec::new();
+        let mut txs = Vec::new();
+        FREEZE.with(|q| q.set(marker == 'X'));
+        let killed = run_segment(stream, &dir, &mut txs, &seg, &mut outs);
+        FREEZE.with(|q| q.set(false));
+        let head = join_results(&outs[idx.min(outs.len())..]);
+        *crashed[k].lock().unwrap() = Some(Crashed { dir, head, txs, killed });
+    });
+    let t1 = std::time::Instant::now();
+    // Phase 2: per (k, variant) a copy of that directory is turned into the crash image and the
+    // continuation runs on it.
+    let mut work: Vec<(usize, String)> = Vec::new();
     for (k, (np, nw, nr)) in pend.iter().enumerate() {
-        if marker == 'F' {
-            work.push(format!("F{}", k));
-        } else {
-            for v in variants(*np, *nw, *nr) {
-                work.push(format!("X{}.{}", k, v));
-            }
+        for v in variants(*np, *nw, *nr) {
+            work.push((k, v));
         }
     }
     let results: Vec<std::sync::Mutex<String>> = work.iter().map(|_| std::sync::Mutex::new(String::new())).collect();
-    let next = AtomicU64::new(0);
-    std::thread::scope(|sc| {
-        for _ in 0..jobs() {
-            sc.spawn(|| loop {
-                let i = next.fetch_add(1, Ordering::Relaxed) as usize;
-                if i >= work.len() {
-                    break;
+    // identical crash images (many selections of one sync window coincide) have identical continuations
+    let memo: std::sync::Mutex<std::collections::HashMap<Vec<u8>, String>> = Default::default();
+    par_for(work.len(), &|i| {
+        let (k, var) = &work[i];
+        let g = crashed[*k].lock().unwrap();
+        let c = g.as_ref().unwrap();
+        let dir = fresh_dir();
+        copy_dir(&c.dir, &dir);
+        let (head, mut txs, killed) = (c.head.clone(), c.txs.clone(), c.killed);
+        drop(g);
+        if killed {
+            if let Some(v) = parse_variant(var) {
+                if v.power {
+                    apply_power_loss(&dir, &v);
                 }
-                let mut t: Vec<String> = toks[..idx].to_vec();
-                t.push(work[i].clone());
-                t.extend_from_slice(&toks[idx..]);
-                let outs = run_scenario(stream, &t);
-                // report the op under the marker and everything after it
-                *results[i].lock().unwrap() = join_results(&outs[idx.min(outs.len())..]);
-            });
+            }
         }
+        cleanup_side_files(&dir);
+        let key = image_key(&dir);
+        let known = if std::env::var("NVH_NOMEMO").is_ok() { None } else { memo.lock().unwrap().get(&key).cloned() };
+        let tail = match known {
+            Some(t) => t,
+            None => {
+                let mut outs = Vec::new();
+                QUIET.with(|q| q.set(true));
+                run_from(stream, &dir, &mut txs, &toks[idx + 1..], &mut outs);
+                QUIET.with(|q| q.set(false));
+                let t = join_results(&outs);
+                memo.lock().unwrap().insert(key, t.clone());
+                t
+            }
+        };
+        let _ = std::fs::remove_dir_all(&dir);
+        *results[i].lock().unwrap() = if tail.is_empty() { head } else { format!("{},{}", head, tail) };
     });
+    if std::env::var("NVH_PROF").is_ok() {
+        eprintln!("enum: {} steps phase1 {:?}, {} variants phase2 {:?}, distinct images {}", nk, t1 - t0, work.len(), t1.elapsed(), memo.lock().unwrap().len());
+    }
+    for c in &crashed {
+        if let Some(c) = c.lock().unwrap().as_ref() {
+            let _ = std::fs::remove_dir_all(&c.dir);
+        }
+    }
     let fields: Vec<String> =
-        work.iter().zip(results.iter()).map(|(w, r)| format!("{}={}", w, r.lock().unwrap())).collect();
+        work.iter().zip(results.iter()).map(|((k, v), r)| format!("X{}.{}={}", k, v, r.lock().unwrap())).collect();
     if fields.is_empty() { "none".into() } else { fields.join(" ") }
 }
 
@@ -819,13 +1144,14 @@ pub fn step_for(stream: &str, ws: &[&str]) -> String {
                 Err(_) => "probe-failed".into(),
             }
         }
-        ["enum", idx, rest @ ..] => {
+        [kind @ ("enum" | "enumf"), idx, rest @ ..] => {
+            // enum: deaths simulated in-process (hook mode Freeze); enumf: real abort() in a forked process
             let toks: Vec<String> = rest.iter().map(|s| s.to_string()).collect();
             let Ok(idx) = idx.parse::<usize>() else { return "bad-op".into() };
             if toks.iter().any(|t| parse_tok(t).is_none()) {
                 return "bad-op".into();
             }
-            run_enum(stream, idx, &toks, if stream == "fault" { 'F' } else { 'X' })
+            run_enum(stream, idx, &toks, if stream == "fault" { 'F' } else if *kind == "enumf" { 'A' } else { 'X' })
         }
         _ => "bad-op".into(),
     }
@@ -884,7 +1210,10 @@ fn generate(rng: &mut Rng, n: usize, tier: &str, out: &mut dyn Write) {
             // enumerate op i of the prefix h[..=i], then the continuation
             let mut t: Vec<String> = h[..=i].to_vec();
             t.extend(cont.iter().map(|s| s.to_string()));
-            writeln!(out, "enum {} {}", i, t.join(" ")).unwrap();
+            // every fifth history (and every history of the thorough tier's first dozen) with real
+            // process deaths in forked processes, the others with the death simulated in-process
+            let forked = c % 5 == 4 || (tier == "thorough" && c < 12);
+            writeln!(out, "{} {} {}", if forked { "enumf" } else { "enum" }, i, t.join(" ")).unwrap();
         }
         // multi-round random scenario
         let rounds = if tier == "thorough" { 4 } else { 2 };
